@@ -266,8 +266,13 @@ ShareDir(dir, tk, re, ce) ==
          [] dir = "table" -> Div(s, TableSumTotal(tk))
 ShareM(dir, tk, RE, CE) ==
   Mat(Len(RE), Len(CE), LAMBDA i, j : ShareDir(dir, tk, RE[i], CE[j]))
+\* A strand reports the SIGNED sum for a difference row (addends minus subtrahends), so
+\* "its sum divided by the total" is defined there: the share of the signed sum.
+SSignedSum(tk, re) ==
+  LET part(S) == FoldSet(LAMBDA p, acc : Add(SumAt(Co(tk, BaseEl(DimR, p), NoEl)), acc), Zero, S)
+  IN  Sub(part(re.pos), part(re.neg))
 SShareV(tk, RE) ==
-  Vec(Len(RE), LAMBDA i : IF IsDiff(RE[i]) THEN AnyVal
+  Vec(Len(RE), LAMBDA i : IF IsDiff(RE[i]) THEN Div(SSignedSum(tk, RE[i]), TableSumTotal(tk))
                           ELSE Div(SumOver(tk, RE[i], NoEl), TableSumTotal(tk)))
 
 (***************************************************************************)
